@@ -1,6 +1,7 @@
 SPECIFICATION Spec
 CONSTANTS K = 2
           KO = 0
+          SK = 1
           W = 1
           Ext = FALSE
           ValSet = "plain"
